@@ -93,12 +93,16 @@ struct C12Case {
 fn build_c12_tree(root: &Path, bits: usize, decl_yaml: &str, trace: &Path) {
     let tr = trace.display();
     let yml = format!(
-        "imports:\n  q: q\ntargets:\n  t:\n    dependencies: [u, l]\n    build: 'echo t >> {tr}'\n    input: [{{paths: [src/in.txt]}}]\n    output: {decl}\n  l:\n    build: 'echo l >> {tr}'\n    input: [{{paths: [src/in.txt]}}]\n  u:\n    build: 'echo u >> {tr}'\n    input: [{{paths: [src/in.txt]}}]\n    output: [{{paths: [uout]}}]\n  v:\n    build: 'echo v >> {tr}'\n    input: [{{paths: [src/in.txt]}}]\n    output: [{{paths: [vout]}}]\n",
+        "imports:\n  q: q\n  e: e\ntargets:\n  t:\n    dependencies: [u, l]\n    build: 'echo t >> {tr}'\n    input: [{{paths: [src/in.txt]}}]\n    output: {decl}\n  l:\n    build: 'echo l >> {tr}'\n    input: [{{paths: [src/in.txt]}}]\n  u:\n    build: 'echo u >> {tr}'\n    input: [{{paths: [src/in.txt]}}]\n    output: [{{paths: [uout]}}]\n  v:\n    build: 'echo v >> {tr}'\n    input: [{{paths: [src/in.txt]}}]\n    output: [{{paths: [vout]}}]\n",
         tr = tr,
         decl = decl_yaml
     );
     write(&root.join("zinoma.yml"), yml.as_bytes());
     write(&root.join("q/zinoma.yml"), format!("name: q\ntargets:\n  w:\n    build: 'echo w >> {tr}'\n    input: [{{paths: [qin.txt]}}]\n    output: [{{paths: [wout]}}]\n", tr = tr).as_bytes());
+    // a loaded project that declares no targets any more but still holds state from the time it did
+    write(&root.join("e/zinoma.yml"), b"name: e\n");
+    write(&root.join("e/.zinoma/e::old.checksums"), b"record of a target that is no longer declared");
+    write(&root.join("e/data.txt"), b"unrelated file of e");
     write(&root.join("q/qin.txt"), b"q input");
     write(&root.join("q/wout/c.bin"), b"w output");
     write(&root.join("src/in.txt"), b"input");
@@ -247,6 +251,7 @@ fn c12_expected_deleted(before: &BTreeMap<PathBuf, Node>, decl: usize, mode: &[&
     if all {
         del.extend(under(".zinoma"));
         del.extend(under("q/.zinoma"));
+        del.extend(under("e/.zinoma"));
     } else {
         for t in &scope {
             let rec = match *t {
@@ -405,7 +410,7 @@ pub fn check_c12(rep: &mut Report) {
     rep.set("traces_validated_against_impl", json!(cases.len()));
     rep.set("invocations_of_the_real_binary", json!(cases.len()));
     rep.set("exhaustive", json!(true));
-    rep.set("bounds", json!({"tree_entries": OUT_ENTRIES, "other_bits": ["unrelated file in .zinoma", "records of t, u and l", "records of v and q::w"], "trees": if thorough { "all 512" } else { "all out/ subsets with every record present; every 5th out/ subset for the other record combinations" }, "t_output_declarations": decls.iter().map(|d| d.0).collect::<Vec<_>>(), "invocations": modes.iter().map(|m| m.join(" ")).collect::<Vec<_>>()}));
+    rep.set("bounds", json!({"tree_entries": OUT_ENTRIES, "always_present": ["imported project e without targets holding a stale record"], "other_bits": ["unrelated file in .zinoma", "records of t, u and l", "records of v and q::w"], "trees": if thorough { "all 512" } else { "all out/ subsets with every record present; every 5th out/ subset for the other record combinations" }, "t_output_declarations": decls.iter().map(|d| d.0).collect::<Vec<_>>(), "invocations": modes.iter().map(|m| m.join(" ")).collect::<Vec<_>>()}));
     rep.set("rule", json!("states = distinct (expected deletion set, declaration, invocation); transitions = invocations of the real binary compared by full recursive snapshot"));
     rep.assumptions.push("don't-care: whether a symlink whose target is a matching regular file is itself unlinked".into());
 }
